@@ -211,6 +211,10 @@ impl<'tcx> Cx<'tcx> {
         if did.is_local() { return "null"; }
         let mut doc = String::new();
         for a in self.tcx.get_all_attrs(did) { if let Some(d) = a.doc_str() { doc.push_str(d.as_str()); doc.push('\n'); } }
+        // operator impls are usually documented on the impl block (`/// # Panics` above `impl Sub<..> for ..`)
+        if let Some(imp) = self.tcx.impl_of_assoc(did) {
+            for a in self.tcx.get_all_attrs(imp) { if let Some(d) = a.doc_str() { doc.push_str(d.as_str()); doc.push('\n'); } }
+        }
         if doc.contains("# Panics") { "\"panics\"" } else if doc.is_empty() { "\"nodoc\"" } else { "\"nopanics\"" }
     }
     fn is_unsafe_fn(&self, did: DefId) -> bool {
